@@ -147,20 +147,24 @@ Section BinSearch.
     - intros [[[pmin pmax] pmid] pstart] s' (H1 & H2 & -> & He & Hc) Hs. cbn in Hs.
       destruct (pmin <? pmid) eqn:Elt; [|discriminate].
       destruct (P pmin pmid) eqn:Ep; ok_inv; cbn.
-      + apply HP in Ep; [|lia|lia|assumption].
+      + assert (Hlt : 0 <= pmin < pmid) by lia. assert (Hle : pmid <= m) by lia.
+        apply (proj1 (HP pmin pmid Hlt Hle He)) in Ep.
         repeat split; try lia; try assumption.
         right. split; [reflexivity|]. destruct Hc as [[-> ->]|[_ [Hc|Hc]]]; [right; reflexivity|now left|lia].
       + assert (Hn : ~ E pmid).
-        { intros Hb. apply HP in Hb; [congruence|lia|lia|assumption]. }
+        { assert (Hlt : 0 <= pmin < pmid) by lia. assert (Hle : pmid <= m) by lia.
+          intros Hb. apply (proj2 (HP pmin pmid Hlt Hle He)) in Hb. congruence. }
         repeat split; try lia; try assumption.
         right. split; [reflexivity|]. now left.
     - intros [[[pmin pmax] pmid] pstart] r (H1 & H2 & -> & He & Hc) Hs. cbn in Hs.
-      destruct (pmin <? pmid) eqn:Elt; [discriminate|]. ok_inv.
-      assert (r = pmin) by lia. subst r.
+      destruct (pmin <? pmid) eqn:Elt; [destruct (P pmin pmid); discriminate|]. ok_inv.
+      assert (pmid = pmin) by lia. subst pmid.
       split; [lia|]. split; [assumption|].
-      destruct Hc as [[-> ->]|[Hd [Hc|Hc]]]; [now left| |now left].
-      assert (pmax = pmin \/ pmax = pmin + 1) as [->| ->] by lia; [contradiction|now right].
-    - cbn. repeat split; try lia; try assumption. left. split; reflexivity.
+      destruct Hc as [[Hc1 Hc2]|[Hd [Hc|Hc]]].
+      + left. lia.
+      + assert (pmax = pmin \/ pmax = pmin + 1) as [Hx|Hx] by lia; subst pmax; [contradiction|now right].
+      + left. lia.
+    - cbn. repeat split; try lia; try assumption.
   Qed.
 End BinSearch.
 
@@ -178,8 +182,8 @@ Lemma firstn_eq_decomp (n : nat) (t1 t2 : str) : (n <= length t1)%nat -> (n <= l
   exists c r1 r2, t1 = c ++ r1 /\ t2 = c ++ r2 /\ length c = n.
 Proof.
   intros H1 H2 He. exists (firstn n t1), (skipn n t1), (skipn n t2).
-  rewrite firstn_skipn. rewrite He at 2. rewrite firstn_skipn.
-  repeat split. rewrite firstn_length. lia.
+  split; [now rewrite firstn_skipn|]. split; [now rewrite He, firstn_skipn|].
+  rewrite firstn_length. lia.
 Qed.
 
 Lemma commonPrefix_spec t1 t2 n : commonPrefix t1 t2 = Ok n ->
@@ -205,7 +209,7 @@ Proof.
     exists c, r1, r2. repeat split; try assumption; [unfold zlen; lia|].
     destruct r1 as [|a r1]; [exact I|]. destruct r2 as [|b r2]; [exact I|]. cbn.
     intros ->. destruct Hmax as [Hmax|Hmax].
-    + rewrite E1, E2 in m. subst m. rewrite !zlen_app, !zlen_cons in Hmax.
+    + subst m. rewrite E1, E2 in Hmax. rewrite !zlen_app, !zlen_cons in Hmax.
       pose proof (zlen_nonneg r1). pose proof (zlen_nonneg r2). unfold zlen in Hmax at 1 3. lia.
     + apply Hmax. rewrite E1, E2.
       replace (Z.to_nat (n + 1)) with (length c + 1)%nat by lia.
@@ -250,8 +254,8 @@ Lemma commonSuffix_spec t1 t2 n : commonSuffix t1 t2 = Ok n ->
   exists c r1 r2, t1 = r1 ++ c /\ t2 = r2 ++ c /\ zlen c = n /\ nolast r1 r2.
 Proof.
   unfold commonSuffix, nolast.
-  destruct t1 as [|x t1']; [intros H; ok_inv; exists [], [], t2; rewrite app_nil_r; cbn; auto|].
-  destruct t2 as [|y t2']; [intros H; ok_inv; exists [], (x :: t1'), []; cbn; repeat split; destruct (rev t1' ++ [x]); exact I|].
+  destruct t1 as [|x t1']; [intros H; ok_inv; exists [], [], t2; rewrite !app_nil_r; cbn; auto|].
+  destruct t2 as [|y t2']; [intros H; ok_inv; exists [], (x :: t1'), []; rewrite !app_nil_r; cbn; repeat split; destruct (rev t1' ++ [x]); exact I|].
   destruct (py_get_last_cons x t1') as (p1 & l1 & E1 & G1).
   destruct (py_get_last_cons y t2') as (p2 & l2 & E2 & G2).
   rewrite G1, G2. cbn [bind].
@@ -285,14 +289,10 @@ Proof.
       { subst m. rewrite D1 in Hmax at 1. rewrite D2 in Hmax at 1. rewrite !zlen_app in Hmax. unfold zlen in Hmax. lia. }
       * rewrite R1, app_length in Hz. cbn in Hz. lia.
       * rewrite R2, app_length in Hz. cbn in Hz. lia.
-    + apply Hmax.
+    + apply Hmax. clearbody c r1 r2. clearbody t1 t2. subst r1 r2. subst t1 t2.
       replace (Z.to_nat (n + 1)) with (length ([b] ++ c)) by (rewrite app_length; cbn; lia).
-      rewrite D1 at 1. rewrite D2 at 1. rewrite R1, R2, <- !app_assoc.
-      rewrite (app_assoc (rev rr1)), (app_assoc (rev rr2)).
-      cbn [app]. rewrite !app_assoc.
-      change (b :: c) with ([b] ++ c).
-      rewrite <- !app_assoc. rewrite !lastn_app. reflexivity.
-  - reflexivity.
+      rewrite D1, D2, <- !app_assoc. rewrite !lastn_app. reflexivity.
+  - unfold lastn. cbn [Z.to_nat]. rewrite !Nat.sub_0_r, !skipn_all. reflexivity.
   - intros a b Hab Hb Ha. cbn beta.
     assert (Hb1 : b <= zlen t1) by lia. assert (Hb2 : b <= zlen t2) by lia.
     rewrite !slice_neg by lia.
@@ -304,7 +304,226 @@ Proof.
     replace (length t2 - Z.to_nat a - (length t2 - Z.to_nat b))%nat with (Z.to_nat (b - a)) in S2 by lia.
     replace (Z.to_nat (zlen t1 - b)) with (length t1 - Z.to_nat b)%nat by (unfold zlen; lia).
     replace (Z.to_nat (zlen t2 - b)) with (length t2 - Z.to_nat b)%nat by (unfold zlen; lia).
-    rewrite S1, S2 by lia. rewrite Ha. rewrite str_eqb_eq. split.
-    + intros ->. reflexivity.
-    + intros Heq. apply app_inv_tail in Heq. assumption.
+    rewrite str_eqb_eq. split.
+    + intros Heq. rewrite S1, S2 by lia. rewrite Heq. f_equal. exact Ha.
+    + intros Heq. rewrite Heq. reflexivity.
+Qed.
+
+(* ------------------------------------------------------------------ *)
+(** * diff_commonOverlap *)
+
+Section SliceSpecs.
+  Context {A : Type}.
+  Implicit Types (s : list A).
+
+  (* s[-n:] for n > 0: the last n elements, or everything when n > len(s) *)
+  Lemma slice_from_neg_spec s n : 0 < n ->
+    exists a, s = a ++ slice_from s (- n) /\ (zlen (slice_from s (- n)) = n \/ (zlen s < n /\ a = [])).
+  Proof.
+    intros Hn. pose proof (zlen_nonneg s) as Hs.
+    exists (slice_to s (- n)). split; [now rewrite slice_to_from|].
+    rewrite slice_from_len. unfold slice_to, clampi.
+    destruct (- n <? 0) eqn:E; [|lia].
+    destruct (Z_le_gt_dec n (zlen s)).
+    - left. lia.
+    - right. split; [lia|]. replace (Z.max 0 (- n + zlen s)) with 0 by lia. reflexivity.
+  Qed.
+
+  (* s[:n] for n >= 0 *)
+  Lemma slice_to_spec s n : 0 <= n ->
+    exists b, s = slice_to s n ++ b /\ (zlen (slice_to s n) = n \/ (zlen s < n /\ b = [])).
+  Proof.
+    intros Hn. pose proof (zlen_nonneg s) as Hs.
+    exists (slice_from s n). split; [now rewrite slice_to_from|].
+    rewrite slice_to_len. unfold slice_from, clampi.
+    destruct (n <? 0) eqn:E; [lia|].
+    destruct (Z_le_gt_dec n (zlen s)).
+    - left. lia.
+    - right. split; [lia|]. rewrite Z.min_r by lia. rewrite to_nat_zlen. apply skipn_all.
+  Qed.
+
+  Lemma slice_mid (a m b : list A) i j : i = zlen a -> j = zlen a + zlen m -> slice (a ++ m ++ b) i j = m.
+  Proof.
+    intros -> ->. pose proof (zlen_nonneg a). pose proof (zlen_nonneg m). pose proof (zlen_nonneg b).
+    rewrite slice_in by (rewrite ?zlen_app; lia).
+    rewrite to_nat_zlen, skipn_mid.
+    replace (Z.to_nat (zlen a + zlen m - zlen a)) with (length m) by (unfold zlen; lia).
+    apply firstn_mid.
+  Qed.
+End SliceSpecs.
+
+Lemma same_len_app_eq {A} (a c b : list A) : a ++ c = c ++ b -> a = [] -> b = [].
+Proof.
+  intros H ->. cbn in H. apply (f_equal (@length A)) in H. rewrite app_length in H.
+  destruct b; [reflexivity|]. cbn in H. lia.
+Qed.
+
+Lemma commonOverlap_spec x y n : commonOverlap x y = Ok n ->
+  exists a c b, x = a ++ c /\ y = c ++ b /\ zlen c = n.
+Proof.
+  unfold commonOverlap.
+  pose proof (zlen_nonneg x) as Hx. pose proof (zlen_nonneg y) as Hy.
+  destruct ((zlen x =? 0) || (zlen y =? 0)) eqn:E0.
+  { intros H; ok_inv. exists x, [], y. now rewrite app_nil_r. }
+  apply orb_false_iff in E0 as [E1 E2].
+  set (t1 := if zlen x >? zlen y then slice_from x (- zlen y) else x).
+  set (t2 := if zlen x >? zlen y then y else if zlen x <? zlen y then slice_to y (zlen x) else y).
+  set (tl := Z.min (zlen x) (zlen y)).
+  assert (Ht : exists xa yb, x = xa ++ t1 /\ y = t2 ++ yb /\ zlen t1 = tl /\ zlen t2 = tl).
+  { subst t1 t2 tl. destruct (zlen x >? zlen y) eqn:Eg.
+    - destruct (slice_from_neg_spec x (zlen y)) as (a & Ha & Hl); [lia|].
+      exists a, []. rewrite app_nil_r. repeat split; try assumption; destruct Hl as [Hl|[Hl _]]; lia.
+    - destruct (zlen x <? zlen y) eqn:El.
+      + destruct (slice_to_spec y (zlen x)) as (b & Hb & Hl); [lia|].
+        exists [], b. repeat split; try assumption; destruct Hl as [Hl|[Hl _]]; lia.
+      + exists [], []. rewrite app_nil_r. repeat split; lia. }
+  destruct Ht as (xa & yb & Hxa & Hyb & Hl1 & Hl2).
+  clearbody t1 t2.
+  destruct (str_eqb t1 t2) eqn:Eeq.
+  { intros H; ok_inv. apply str_eqb_eq in Eeq. subst t2.
+    exists xa, t1, yb. repeat split; try assumption; try congruence; lia. }
+  apply str_eqb_neq in Eeq.
+  intros H.
+  cut (exists a c b, t1 = a ++ c /\ t2 = c ++ b /\ zlen c = n).
+  { intros (a & c & b & -> & -> & Hc). exists (xa ++ a), c, (b ++ yb).
+    rewrite <- !app_assoc. rewrite <- app_assoc in Hyb. repeat split; assumption. }
+  revert H.
+  apply (loop_inv (fun s : Z * Z => let '(best, length) := s in
+                     1 <= length /\ exists a c b, t1 = a ++ c /\ t2 = c ++ b /\ zlen c = best)
+                  (fun n => exists a c b, t1 = a ++ c /\ t2 = c ++ b /\ zlen c = n)).
+  - intros [best length] s' (Hlen & Hinv) Hs. unfold co_step in Hs.
+    set (pattern := slice_from t1 (- length)) in Hs.
+    destruct (find_spec pattern t2 _ eq_refl) as [Hf | (pre & post & Hf & Hfl)].
+    + rewrite Hf in Hs. cbn in Hs. discriminate.
+    + set (found := find pattern t2) in *.
+      pose proof (zlen_nonneg pre).
+      destruct (found =? -1) eqn:Em1; [lia|].
+      destruct (found =? 0) eqn:Ef0; cbn [orb] in Hs.
+      * ok_inv. split; [lia|].
+        assert (pre = []) by (apply zlen_0; lia). subst pre. cbn in Hf.
+        destruct (slice_from_neg_spec t1 length) as (a & Ha & Hl); [lia|]. fold pattern in Ha, Hl.
+        destruct Hl as [Hl|[Hl ->]].
+        -- exists a, pattern, post. repeat split; try assumption. lia.
+        -- exfalso. cbn in Ha. rewrite <- Ha in Hf. apply Eeq.
+           assert (post = []).
+           { apply (f_equal zlen) in Hf. rewrite zlen_app in Hf. apply zlen_0. pose proof (zlen_nonneg post). lia. }
+           subst post. now rewrite app_nil_r in Hf.
+      * destruct (str_eqb (slice_from t1 (- (length + found))) (slice_to t2 (length + found))) eqn:Ec; ok_inv.
+        -- split; [lia|]. apply str_eqb_eq in Ec.
+           destruct (slice_from_neg_spec t1 (length + found)) as (a & Ha & Hl); [lia|].
+           destruct (slice_to_spec t2 (length + found)) as (b & Hb & Hl'); [lia|].
+           destruct Hl as [Hl|[Hl ->]].
+           ++ exists a, (slice_from t1 (- (length + found))), b. repeat split; try assumption.
+              now rewrite Ec at 1.
+           ++ exfalso. destruct Hl' as [Hl'|[Hl' ->]]; [rewrite <- Ec in Hl'; cbn in Ha; rewrite <- Ha in Hl'; lia|].
+              apply Eeq. cbn in Ha. rewrite app_nil_r in Hb. congruence.
+        -- split; [lia|]. assumption.
+  - intros [best length] r (Hlen & Hinv) Hs. unfold co_step in Hs.
+    destruct (find (slice_from t1 (- length)) t2 =? -1); [ok_inv; assumption|].
+    destruct ((find (slice_from t1 (- length)) t2 =? 0) ||
+              str_eqb (slice_from t1 (- (length + find (slice_from t1 (- length)) t2)))
+                      (slice_to t2 (length + find (slice_from t1 (- length)) t2))); discriminate.
+  - split; [lia|]. exists t1, [], t2. now rewrite app_nil_r.
+Qed.
+
+(* ------------------------------------------------------------------ *)
+(** * diff_halfMatch *)
+
+Definition hm_ok (longtext shorttext : str) (h : hm_t) : Prop :=
+  let '(la, lb, sa, sb, c) := h in longtext = la ++ c ++ lb /\ shorttext = sa ++ c ++ sb.
+
+Lemma halfMatchI_spec longtext shorttext i h :
+  halfMatchI longtext shorttext i = Ok (Some h) -> 0 <= i <= zlen longtext ->
+  hm_ok longtext shorttext h /\ zlen longtext <= 2 * zlen (hm_common (Some h)).
+Proof.
+  unfold halfMatchI. intros H Hi.
+  set (seed := slice longtext i (i + zlen longtext / 4)) in H.
+  inv_bind H.
+  destruct (zlen (hm_common v) * 2 >=? zlen longtext) eqn:Ege; [|discriminate].
+  destruct v as [h'|]; [|discriminate]. ok_inv. split; [|lia].
+  revert E.
+  apply (loop_inv (fun s : Z * option hm_t => let '(j, best) := s in
+                     (j = -1 \/ 0 <= j <= zlen shorttext) /\
+                     match best with None => True | Some h => hm_ok longtext shorttext h end)
+                  (fun best => match best with None => True | Some h => hm_ok longtext shorttext h end)).
+  - intros [j best] s' (Hj & Hb) Hs. unfold hmi_step in Hs.
+    destruct (j =? -1) eqn:Ej; cbn [negb] in Hs; [discriminate|].
+    assert (Hj' : 0 <= j <= zlen shorttext) by lia. clear Hj.
+    inv_bind Hs. inv_bind Hs. ok_inv.
+    split.
+    { destruct (find_from_spec seed shorttext (j + 1) _ eq_refl) as [Hf|(pre & post & Hf & Hfl & Hge)]; [lia|now left|].
+      right. pose proof (f_equal zlen Hf) as Hz. rewrite !zlen_app in Hz.
+      pose proof (zlen_nonneg pre). pose proof (zlen_nonneg seed). pose proof (zlen_nonneg post). lia. }
+    destruct (zlen (hm_common best) <? v0 + v) eqn:Elt; [|assumption].
+    apply commonPrefix_spec in E as (cp & r1 & r2 & P1 & P2 & Pl & _).
+    apply commonSuffix_spec in E0 as (cs & q1 & q2 & S1 & S2 & Sl & _).
+    assert (L : longtext = q1 ++ cs ++ cp ++ r1).
+    { rewrite <- (slice_to_from longtext i), P1, S1, <- app_assoc. reflexivity. }
+    assert (Sh : shorttext = q2 ++ cs ++ cp ++ r2).
+    { rewrite <- (slice_to_from shorttext j), P2, S2, <- app_assoc. reflexivity. }
+    assert (Li : zlen q1 + zlen cs = i).
+    { rewrite <- zlen_app, <- S1, slice_to_len, clampi_in; lia. }
+    assert (Sj : zlen q2 + zlen cs = j).
+    { rewrite <- zlen_app, <- S2, slice_to_len, clampi_in; lia. }
+    cbn [hm_ok]. split.
+    + rewrite L at 1.
+      f_equal.
+      * symmetry. rewrite L. apply slice_to_app. lia.
+      * rewrite (app_assoc cs). f_equal.
+        -- rewrite Sh. rewrite (slice_mid q2 cs (cp ++ r2)) by lia.
+           rewrite (app_assoc q2 cs), (slice_mid (q2 ++ cs) cp r2) by (rewrite zlen_app; lia). reflexivity.
+        -- symmetry. rewrite L. rewrite (app_assoc q1), (app_assoc (q1 ++ cs)).
+           apply slice_from_app. rewrite !zlen_app. lia.
+    + rewrite Sh at 1.
+      f_equal.
+      * symmetry. rewrite Sh. apply slice_to_app. lia.
+      * rewrite (app_assoc cs). f_equal.
+        -- rewrite Sh. rewrite (slice_mid q2 cs (cp ++ r2)) by lia.
+           rewrite (app_assoc q2 cs), (slice_mid (q2 ++ cs) cp r2) by (rewrite zlen_app; lia). reflexivity.
+        -- symmetry. rewrite Sh. rewrite (app_assoc q2), (app_assoc (q2 ++ cs)).
+           apply slice_from_app. rewrite !zlen_app. lia.
+  - intros [j best] r (Hj & Hb) Hs. unfold hmi_step in Hs.
+    destruct (j =? -1) eqn:Ej; cbn [negb] in Hs.
+    + ok_inv. assumption.
+    + inv_bind Hs. inv_bind Hs. discriminate.
+  - split; [|exact I].
+    destruct (find_spec seed shorttext _ eq_refl) as [Hf|(pre & post & Hf & Hfl)]; [now left|].
+    right. pose proof (f_equal zlen Hf) as Hz. rewrite !zlen_app in Hz.
+    pose proof (zlen_nonneg pre). pose proof (zlen_nonneg seed). pose proof (zlen_nonneg post). lia.
+Qed.
+
+Lemma halfMatch_spec text1 text2 a1 b1 a2 b2 c :
+  halfMatch text1 text2 = Ok (Some (a1, b1, a2, b2, c)) ->
+  text1 = a1 ++ c ++ b1 /\ text2 = a2 ++ c ++ b2 /\ c <> [].
+Proof.
+  unfold halfMatch.
+  set (swap := zlen text1 >? zlen text2).
+  set (longtext := if swap then text1 else text2).
+  set (shorttext := if swap then text2 else text1).
+  destruct ((zlen longtext <? 4) || (zlen shorttext * 2 <? zlen longtext)) eqn:E0; [discriminate|].
+  apply orb_false_iff in E0 as [E1 E2].
+  intros H. inv_bind H. inv_bind H.
+  assert (Hi1 : 0 <= (zlen longtext + 3) / 4 <= zlen longtext) by lia.
+  assert (Hi2 : 0 <= (zlen longtext + 1) / 2 <= zlen longtext) by lia.
+  assert (Hgen : forall h, (v = Some h \/ v0 = Some h) ->
+            hm_ok longtext shorttext h /\ zlen longtext <= 2 * zlen (hm_common (Some h))).
+  { intros h [-> | ->]; eapply halfMatchI_spec; eassumption. }
+  assert (Hfin : forall la lb sa sb c', hm_ok longtext shorttext (la, lb, sa, sb, c') ->
+            zlen longtext <= 2 * zlen c' ->
+            (if swap then Ok (Some (la, lb, sa, sb, c')) else Ok (Some (sa, sb, la, lb, c'))) = Ok (Some (a1, b1, a2, b2, c)) ->
+            text1 = a1 ++ c ++ b1 /\ text2 = a2 ++ c ++ b2 /\ c <> []).
+  { intros la lb sa sb c' [HL HS] Hlen Hr. subst longtext shorttext.
+    assert (c' <> []) by (intros ->; cbn in Hlen; change (zlen (@nil N)) with 0 in Hlen; lia).
+    destruct swap; ok_inv; auto. }
+  destruct v as [h1|], v0 as [h2|].
+  - destruct (zlen (hm_common (Some h1)) >? zlen (hm_common (Some h2))).
+    + destruct (Hgen h1 (or_introl eq_refl)) as [Hok Hl]. destruct h1 as [[[[la lb] sa] sb] c'].
+      eapply Hfin; eassumption.
+    + destruct (Hgen h2 (or_intror eq_refl)) as [Hok Hl]. destruct h2 as [[[[la lb] sa] sb] c'].
+      eapply Hfin; eassumption.
+  - destruct (Hgen h1 (or_introl eq_refl)) as [Hok Hl]. destruct h1 as [[[[la lb] sa] sb] c'].
+    eapply Hfin; eassumption.
+  - destruct (Hgen h2 (or_intror eq_refl)) as [Hok Hl]. destruct h2 as [[[[la lb] sa] sb] c'].
+    eapply Hfin; eassumption.
+  - discriminate.
 Qed.
